@@ -24,6 +24,11 @@ impl Emb {
                 table.push(Duration::from_secs(k * 7_000_000_000));
                 continue;
             }
+            if kind == "huge2" {
+                // all ticks but 0 beyond 2^64 ns and close together: several of them fall into one round of the buckets
+                table.push(if k == 0 { Duration::ZERO } else { { let ns = k as u128 * 610_000_000_000_000_007; Duration::from_secs(19_000_000_000) + Duration::new((ns / 1_000_000_000) as u64, (ns % 1_000_000_000) as u32) } });
+                continue;
+            }
             let d = match kind {
                 "ns" => k,
                 "w" => k * wn,
